@@ -47,9 +47,12 @@ structure Dur (K : EvKind → Prop) (c : Cfg) : Prop where
   reply : ∀ p ∈ evK c, p.1 ∈ c.sent → isTaskKind p.2 = true ∧ p.1 ∈ rpC c
   alive : evK c ≠ [] ∨ 1 ≤ c.notes
   nodiv : c.diverged = false
+  nofail : c.failed = 0
+  nodead : c.deadJ = []
 
 theorem Dur.congr {K : EvKind → Prop} {c d : Cfg} (h : Dur K c) (h1 : evK d = evK c) (h2 : rpC d = rpC c)
-    (h3 : d.sent = c.sent) (h4 : d.nextId = c.nextId) (h5 : d.notes = c.notes) (h6 : d.diverged = c.diverged) : Dur K d := by
+    (h3 : d.sent = c.sent) (h4 : d.nextId = c.nextId) (h5 : d.notes = c.notes) (h6 : d.diverged = c.diverged)
+    (h7 : d.failed = c.failed := by rfl) (h8 : d.deadJ = c.deadJ := by rfl) : Dur K d := by
   constructor
   · rw [h1]; exact h.kinds
   · rw [h1]; exact h.ids
@@ -61,6 +64,8 @@ theorem Dur.congr {K : EvKind → Prop} {c d : Cfg} (h : Dur K c) (h1 : evK d = 
   · rw [h1, h2, h3]; exact h.reply
   · rw [h1, h5]; exact h.alive
   · rw [h6]; exact h.nodiv
+  · rw [h7]; exact h.nofail
+  · rw [h8]; exact h.nodead
 
 theorem evK_markEv (c : Cfg) (id : Nat) : evK (markEv c id) = evK c := by
   simp only [evK, markEv_evq, List.map_map]
@@ -134,6 +139,8 @@ theorem Dur.pubEv {K : EvKind → Prop} {c : Cfg} (h : Dur K c) {k : EvKind} (hk
       exact absurd (h.sentlt _ hs) (Nat.lt_irrefl _)
   · left; rw [hev]; simp
   · exact h.nodiv
+  · exact h.nofail
+  · exact h.nodead
 
 theorem Dur.pubReq {K : EvKind → Prop} {c : Cfg} (h : Dur K c) {id : Nat}
     (hev : ∃ p ∈ evK c, p.1 = id ∧ isTaskKind p.2 = true) (hns : id ∉ c.sent) : Dur K (c.act (.pubReq id)) := by
@@ -176,6 +183,8 @@ theorem Dur.pubReq {K : EvKind → Prop} {c : Cfg} (h : Dur K c) {id : Nat}
       exact ⟨ht0, List.mem_append_right _ (by simp [hs])⟩
   · exact h.alive
   · exact h.nodiv
+  · exact h.nofail
+  · exact h.nodead
 
 theorem Dur.note {K : EvKind → Prop} {c : Cfg} (h : Dur K c) (b : Bool) : Dur K (c.act (.note b)) := by
   cases b
@@ -192,6 +201,8 @@ theorem Dur.note {K : EvKind → Prop} {c : Cfg} (h : Dur K c) (b : Bool) : Dur 
     · exact h.reply
     · right; show 1 ≤ c.notes + 1; omega
     · exact h.nodiv
+    · exact h.nofail
+    · exact h.nodead
 
 theorem evK_ackEv_sublist (c : Cfg) (id : Nat) : (evK (c.act (.ackEv id))).Sublist (evK c) := by
   simp only [evK, act_ackEv_evq]
@@ -220,6 +231,8 @@ theorem Dur.ackEv {K : EvKind → Prop} {c : Cfg} (h : Dur K c) {id : Nat}
         simp [ackP, this]
       exact List.ne_nil_of_mem this
   · exact h.nodiv
+  · exact h.nofail
+  · exact h.nodead
 
 theorem mem_removeFirst_of_false {p : QRp → Bool} {l : List QRp} {x : QRp} (hx : x ∈ l) (hp : p x = false) :
     x ∈ removeFirst p l := by
@@ -260,6 +273,8 @@ theorem Dur.ackRp {K : EvKind → Prop} {c : Cfg} (h : Dur K c) {corr : Nat}
     simp [this]
   · exact h.alive
   · exact h.nodiv
+  · exact h.nofail
+  · exact h.nodead
 
 /-- what a broker operation needs for `Dur` to survive it -/
 def actPre (K : EvKind → Prop) (c : Cfg) : Act → Prop
@@ -285,6 +300,8 @@ theorem Dur.act {K : EvKind → Prop} {c : Cfg} (h : Dur K c) {a : Act} (hp : ac
   | pubChild _ _ => exact absurd hp (by simp [actPre])
   | pubAns _ => exact absurd hp (by simp [actPre])
   | cnote _ => exact absurd hp (by simp [actPre])
+  | fnote => exact absurd hp (by simp [actPre])
+  | pubDead _ _ => exact absurd hp (by simp [actPre])
 
 /-- every prefix of an ordered handler keeps the durable invariant -/
 theorem Dur.take {K : EvKind → Prop} {acts : List Act} {c : Cfg} (h : Dur K c) (hok : ok K c acts) (k : Nat) :
